@@ -1,8 +1,87 @@
 /-
-C17 — Colr part (theorems). See reports/C17.md.
+C17 — COLR / CPAL part (theorems). See reports/C17.md.
+
+Models: `Model/SubsetCpal.lean` (Cpal::subset + remap_palette_indices, reader `color` …),
+`Model/SubsetColr.lean` (Colr::subset, the plan's index maps), `Model/SubsetColrSer.lean` (the Serializer:
+packing with sharing, link resolution, layout).  The models are tied to klippa by the byte-exact
+correspondence runs of `harness/src/bin/c17/colrx.rs` (whole emitted COLR / CPAL tables).
+
+Every statement is about the BYTES the model emits, read back through a reader model of what a client
+of read-fonts computes (`SubsetCpal.color` = `color_records_array()[color_record_indices()[p] + e]` …).
 -/
-import FontVerif.Model.Base
+import FontVerif.Lemmas.SubsetCpal
+set_option linter.unusedVariables false
 namespace FontVerif.C17Colr
-open FontVerif
+open FontVerif FontVerif.ColrSer FontVerif.SubsetCpal
+open FontVerif.SubsetHvar (Err R)
+
+/-! ## CPAL -/
+
+/-- **Colours are preserved.**  `keys` = the palette entry indices collected by the COLR closure (an
+`IntSet<u16>`: strictly ascending, below 65536; 0xFFFF = foreground colour may be among them),
+`remapPaletteIndices keys` = `plan.colr_palettes`.  Whenever `Cpal::subset` produces a table from a
+version 0 / 1 source, every retained entry `e` (≠ 0xFFFF, inside the source's `numPaletteEntries`) with
+new index `e' = colr_palettes[e]` has, in EVERY palette `p`, the colour record it had in the source:
+`colorRecords'[colorRecordIndices'[p] + e'] = colorRecords[colorRecordIndices[p] + e]`. -/
+theorem cpal_colors_preserved (b out : List Nat) (keys : List Nat)
+    (hb : ∀ x ∈ b, x < 256) (hs : keys.Pairwise (· < ·)) (hk : ∀ k ∈ keys, k < 65536)
+    (hok : subsetCpal b (remapPaletteIndices keys) = .ok out)
+    (hd : Header) (hhd : readHeader b = some hd) (hv : hd.version ≤ 1)
+    (p e e' : Nat) (hp : p < hd.numPalettes) (he : e < hd.numEntries) (hne : e ≠ 0xFFFF)
+    (hmap : (remapPaletteIndices keys).lookup e = some e') :
+    color out p e' = color b p e := by
+  have hN : (retainedOf (remapPaletteIndices keys)).length < 65536 := by
+    rw [retainedOf_remap]; exact retained_length_lt keys hs hk
+  obtain ⟨i, hi, hget⟩ := remap_lookup e e' hne keys 0 hs (fun k hk' => ⟨Nat.zero_le _, hk k hk'⟩)
+    (by rw [← remapPaletteIndices_eq]; exact hmap)
+  have hi' : e' = i := by omega
+  subst hi'
+  exact subset_color b out _ hb hN hok hd hhd hv p e' e hp (by rw [retainedOf_remap]; exact hget) he
+
+/-- the palette structure survives: same number of palettes, `numPaletteEntries` = number of retained
+entries, same version -/
+theorem cpal_header_preserved (b out : List Nat) (keys : List Nat)
+    (hb : ∀ x ∈ b, x < 256) (hs : keys.Pairwise (· < ·)) (hk : ∀ k ∈ keys, k < 65536)
+    (hok : subsetCpal b (remapPaletteIndices keys) = .ok out)
+    (hd : Header) (hhd : readHeader b = some hd) (hv : hd.version ≤ 1) :
+    ∃ hd', readHeader out = some hd' ∧ hd'.version = hd.version ∧ hd'.numPalettes = hd.numPalettes ∧
+      hd'.numEntries = (keys.filter (· ≠ 0xFFFF)).length := by
+  have hN : (retainedOf (remapPaletteIndices keys)).length < 65536 := by
+    rw [retainedOf_remap]; exact retained_length_lt keys hs hk
+  obtain ⟨packed, root, hobj, hlay⟩ := subsetCpal_objects b _ out hok
+  obtain ⟨sh⟩ := cpalObjects_shape b _ packed root hobj
+  have hsame : sh.hd = hd := by
+    have := sh.hhd; rw [hhd] at this; cases this; rfl
+  obtain ⟨hd', pre, hrd, h1, h2, h3, _⟩ :=
+    subset_header b _ packed root out hb hN sh (by rw [hsame]; exact hv) hlay
+  rw [hsame] at h1 h3
+  rw [retainedOf_remap] at h2
+  exact ⟨hd', hrd, h1, h3, h2⟩
+
+/-- **CPAL is dropped exactly when nothing is retained** (for a readable source with at least one palette
+and a colour record array): no key other than 0xFFFF ⇒ the subsetter reports "empty" and the table is
+omitted; otherwise it is never omitted for that reason. -/
+theorem cpal_dropped_when_no_entries (b : List Nat) (palettes : List (Nat × Nat))
+    (h : retainedOf palettes = []) : subsetCpal b palettes = .error Err.dropped := by
+  unfold subsetCpal cpalObjects
+  cases hr : readHeader b with
+  | none => rfl
+  | some hd =>
+    simp only []
+    rw [if_pos (by right; right; simp [h])]
+    rfl
+
+/-! ### non-vacuity -/
+
+/-- two palettes sharing nothing, 3 entries, entries 0 and 2 retained (+ the foreground colour) -/
+def exCpal : List Nat :=
+  [0,0, 0,3, 0,2, 0,6, 0,0,0,16, 0,0, 0,3,
+   1,2,3,255, 4,5,6,255, 7,8,9,255, 11,12,13,255, 14,15,16,255, 17,18,19,255]
+
+example : (subsetCpal exCpal (remapPaletteIndices [0, 2, 0xFFFF])).toOption =
+    some [0,0, 0,2, 0,2, 0,4, 0,0,0,16, 0,0, 0,2,
+          1,2,3,255, 7,8,9,255, 11,12,13,255, 17,18,19,255] := by decide
+example : color exCpal 1 2 = some [17,18,19,255] := by decide
+example : (remapPaletteIndices [0, 2, 0xFFFF]).lookup 2 = some 1 := by decide
 
 end FontVerif.C17Colr
